@@ -402,11 +402,11 @@ impl Format {
 
         if let Some(weekday) = weekday {
             // Check that the weekday is correct
-            if weekday != epoch.weekday() {
+            if weekday != epoch.weekday_of_gregorian_date() {
                 return Err(HifitimeError::Parse {
                     source: ParsingError::WeekdayMismatch {
                         found: weekday,
-                        expected: epoch.weekday(),
+                        expected: epoch.weekday_of_gregorian_date(),
                     },
                     details: "weekday and day number do not match",
                 });
